@@ -10,7 +10,22 @@ def parseRegistry (l : Line) : List (String × JWK) :=
     (str l (q ++ "client"),
      { KeyID := str l (q ++ "kid"), Use := str l (q ++ "use"), kty := parseKty (str l (q ++ "kty")), keyNo := nat l (q ++ "no") })
 
-/-- key set the statement speaks about for this verifier / token -/
+/-- a signature with go-jose's three header views (`s<i>.alg/kid` merged, `.palg/.pkid` protected, `.ualg/.ukid`
+    unprotected); lines of other streams carry only the merged one (compact tokens: all of it is protected) -/
+def parseSigX (l : Line) (q : String) : JSig :=
+  let s := parseSig l q
+  if has l (q ++ "palg") then
+    { s with Protected := { Algorithm := str l (q ++ "palg"), KeyID := str l (q ++ "pkid") },
+             Unprotected := { Algorithm := str l (q ++ "ualg"), KeyID := str l (q ++ "ukid") } }
+  else s
+
+def parseTokenX (l : Line) : Token :=
+  let t := parseToken l
+  { t with jws := t.jws.map fun j =>
+      { j with Signatures := (List.range (nat l "j.n")).map fun i => parseSigX l ("s" ++ toString i ++ ".") } }
+
+/-- key set the statement speaks about for this verifier / token (for a long-lived remote key set: what its
+    endpoint served it last, `ks.` on the line) -/
 def keySetFor (l : Line) (t : Token) : KeySet :=
   if str l "verifier" == "assertion" then
     let iss := ((t.middle.bind (·.claims)).map (·.iss)).getD ""
@@ -31,7 +46,7 @@ def monitorLine (l : Line) : Option String :=
       if str l "obs" == "ok" && ks.keys[nat l "o.idx"]? == some k then none else some "selection:wrong-key-or-error"
     | .error e => if obsString l == "err:" ++ e then none else some ("selection:expected-" ++ e)
   else
-    let t := parseToken l
+    let t := parseTokenX l
     let obs : Option Claims := if str l "obs" == "ok" then some (parseClaims l "o.") else none
     C02.monitor (list l "v.algs") (keySetFor l t) t obs
 
